@@ -169,7 +169,22 @@ func init() {
 			if !o.CheckFn(f != nil, "user-missing|"+who, who+" no longer exists; where are its matchers evaluated now?", nil) {
 				continue
 			}
-			o.Check(len(e.Calls(f, callee)) >= 1, "user|"+who, who+" no longer evaluates its matchers with "+callee, nil)
+			// (in the function itself or in a helper written since that it calls)
+			found := false
+			seen := map[*ssa.Function]bool{f: true}
+			for work := []*ssa.Function{f}; len(work) > 0 && !found; work = work[1:] {
+				g := work[0]
+				found = len(e.Calls(g, callee)) >= 1
+				for _, in := range AllInstrs(g) {
+					if ci, ok := in.(ssa.CallInstruction); ok {
+						if h := ci.Common().StaticCallee(); h != nil && !seen[h] && isNewFunc(h) {
+							seen[h] = true
+							work = append(work, h)
+						}
+					}
+				}
+			}
+			o.Check(found, "user|"+who, who+" no longer evaluates its matchers with "+callee, nil)
 		}
 		o.Check(n >= 1, "few", "reads of Matcher.re not found", nil)
 		o.MinSites(1)
@@ -409,16 +424,47 @@ func matcherMatchesRule(o *Ob) {
 func matchersAllAnyRule(o *Ob) {
 	e := o.E
 	fn := o.Fn("(am/pkg/labels.Matchers).Matches")
-	mc := o.One(e.Calls(fn, "(*am/pkg/labels.Matcher).Matches"), "each", "Matchers.Matches must evaluate each matcher", fn)
+	mcs := e.Calls(fn, "(*am/pkg/labels.Matcher).Matches")
+	var mc ssa.CallInstruction
+	var evals []ssa.Instruction
+	holds := LRe(`\(\*am/pkg/labels\.Matcher\)\.Matches\(recv\[i\], .*\)`, true)
+	switch len(mcs) {
+	case 1:
+		mc = mcs[0]
+		o.Check(e.Arg(mc, 0) == "recv[i]" && (e.Arg(mc, 1) == "conv:string(p0[recv[i].Name])" || e.Arg(mc, 1) == "p0[recv[i].Name]"), "arg", "each matcher must be applied to the value of its own label read by plain index (a missing label is the empty string), is applied to "+e.Arg(mc, 1), mc)
+		holds = L(e.X(fn, mc.(*ssa.Call)), true)
+		evals = []ssa.Instruction{mc}
+	case 2:
+		// the lookup spelled with comma-ok: the value when the label is there, the empty string when it is not
+		found := LRe(`p0\[(conv:model\.LabelName\()?recv\[i\]\.Name\)?\]#1`, true)
+		for _, c := range mcs {
+			evals = append(evals, c)
+			a := e.Arg(c, 1)
+			switch {
+			case a == `""`:
+				o.Guarded(c, "arg-missing", "applying a matcher to the empty string", found.Neg())
+			case regexpMatch(`(conv:string\()?p0\[(conv:model\.LabelName\()?recv\[i\]\.Name\)?\]#0\)?`, a):
+				mc = c
+				o.Guarded(c, "arg-present", "applying a matcher to the looked-up value", found)
+			default:
+				o.Fail("arg", "each matcher must be applied to the value of its own label (a missing label is the empty string), is applied to "+a, c)
+			}
+			o.Check(e.Arg(c, 0) == "recv[i]", "arg-recv", "the matcher applied must be the one of the iteration", c)
+		}
+		if mc == nil {
+			mc = mcs[0]
+		}
+	default:
+		o.Fail("each", "Matchers.Matches must evaluate each matcher once (found "+itoa(len(mcs))+" evaluation sites)", fnFirst(fn))
+		panic(abortRule{})
+	}
 	o.Site(mc, "m.Matches(lset[m.Name])")
-	o.Check(e.Arg(mc, 0) == "recv[i]" && (e.Arg(mc, 1) == "conv:string(p0[recv[i].Name])" || e.Arg(mc, 1) == "p0[recv[i].Name]"), "arg", "each matcher must be applied to the value of its own label read by plain index (a missing label is the empty string), is applied to "+e.Arg(mc, 1), mc)
 	l := e.LoopOf(mc)
 	o.Require(l != nil, "loop", "matchers are not evaluated in a loop", mc)
 	coll, kind := e.RangeOver(l)
 	o.Check(coll == "recv" && kind == "index", "range", "every matcher must be evaluated", mc)
-	holds := L(e.X(fn, mc.(*ssa.Call)), true)
 	o.LoopExitsGuarded(l, "exit", "the evaluation may stop early only at a failing matcher", holds.Neg())
-	o.Check(!loopBackWithout(o, l, IsInstr(mc), nil), "skip", "a matcher can be skipped", mc)
+	o.Check(!loopBackWithout(o, l, IsInstr(evals...), nil), "skip", "a matcher can be skipped", mc)
 	for _, b := range fn.Blocks {
 		for si := range b.Succs {
 			if li, ok := e.EdgeLit(b, si); ok && holds.Neg().F(li) {
